@@ -227,7 +227,7 @@ write("C03", c03, ["the sequential reference is computed by the same harness on 
       ["more than one login or more than two sessions in flight", "weak-memory effects", "the 'no data race' clause (needs the race detector, i.e. a different technique)"], site_prefix="c03.")
 
 # ---- C07
-write("C07", [run("sshd-framing", SL, "VerifC07SyslogFraming", q({"M": 6}, ascii7=False, preempt=0), t({"M": 12}, preempt=0), reach=["c07.sshd.delivered"],
+write("C07", [run("sshd-framing", SL, "VerifC07SyslogFraming", q({"M": 6}, preempt=0), t({"M": 12}, preempt=0), reach=["c07.sshd.delivered"],
                   bounds="'<pid 1..3 digits> <0..2 extra spaces><message 1..M bytes, any byte but newline, not starting with a space>\\\\n' through the real named-pipe and syslog ingesters"),
               run("audit-line", AUD, "VerifC07AuditLine", {"params": {"T": 4}, "preempt": 0}, {"params": {"T": 8}, "preempt": 0}, reach=["c07.audit.parsed"],
                   bounds="type in {LOGIN, CRED_DISP, USER_END}, two symbolic digits of seconds and of sequence, 3 millisecond digits, tail of T symbolic bytes; with and without the trailing newline"),
